@@ -44,6 +44,15 @@ CHECKS = {
  "C07": dict(cat="exploration", tech="proptest generalized datasets with positive twins (bijective relabel + shuffle + container) and negative mutants; exact isomorphism search decides when 'true' is mandatory, blanked-out multisets decide when 'false' is mandatory",
    text="Generalized datasets/graphs (all term kinds anywhere, nested quoted triples with blank nodes, blank graph names) on 5x5 container pairs: relabelled copies must answer true both ways, answers symmetric, false whenever size / blank count / blanked statements differ. False positives allowed by the contract are only counted.",
    note="Trusted: iso.rs as ground truth for 'isomorphic'.", ref="5/C07, 11"),
+ "C08": dict(cat="exploration", tech="proptest grammar-generated documents + byte-level edits through all 8 parsers in assertion-on and release builds (child process), deep-nesting children on a 2 MiB stack; thorough: libFuzzer (cargo-fuzz) campaigns with the same in-target oracle",
+   text="Valid documents of every syntax plus 1-3 byte edits, token near-misses and invalid UTF-8, with and without base IRI; no panic, and every accessor of every yielded term re-validates with the toolkit's own validators; same inputs replayed in a release-build child; nesting 10^3..10^5 in child processes (crash = failure, timeout = inconclusive). Thorough adds coverage-guided fuzzing of four targets.",
+   note="Trusted: the validators themselves (Iri/IriRef/BnodeId/LanguageTag/VarName::new) as definition of well-formed. Third-party (rio_turtle, rio_xml, iref, json-ld) defects are trigger-keyed known findings; each hides other faults of the same (accessor kind, syntax) class.", ref="5/C08, 11"),
+ "C09": dict(cat="exploration", tech="proptest grammar-derived strings and single-character mutants vs hand-written RFC 3987 recogniser (set-of-positions ABNF interpreter) and RFC 3986 5.2 reference resolver (differential)",
+   text="Strings derived from the ABNF itself with boundary-biased choices (all IPv6/IPvFuture/IPv4 forms, ucschar/iprivate range edges), near-miss generators and one-character mutants; every validator entry point must agree with the reference recogniser; accepted values must survive as_base/to_base/resolve; resolution through 7 API routes must equal the reference resolver.",
+   note="Trusted: c09.rs rfc module (self-tested on every run against the RFC 3986 5.4 examples and ~110 hand-classified strings). Five deviations of the third-party oxiri resolver from RFC 3986 5.2 are trigger-keyed known findings.", ref="5/C09, 11"),
+ "C17": dict(cat="exploration", tech="proptest (base, IRI, parents) pairs derived by path-segment edits; round-trip oracle through BaseIri::resolve + RFC reference resolver; validity and parent-step bound predicates",
+   text="IRIs derived from the base by segment edits (long common prefixes, empty/dot/colon segments, multi-byte divergence, authority and query/fragment edits): Some(r) must be a valid reference with at most `parents` '..' that resolves back exactly; the always-relativisable family must give Some.",
+   note="Trusted: c09.rs rfc module; 'resolving' is sophia's BaseIri::resolve (cases where only the RFC resolver disagrees, all inside C09's recorded resolver deviations, are counted).", ref="5/C17, 11"),
 }
 NOT_APPLICABLE = []
 def main():
